@@ -156,11 +156,16 @@ func (q *Queue) Add(elem *queue.Elem) (err error) {
 		q.cond.Signal()
 	}()
 
+	var dropIdx int
 	defer func() {
 		if drop {
 			if dropErr == queue.ErrDropExpiredInflight {
 				q.notifier.NotifyInflightAdded(-1)
-				q.current--
+				// the read cursor only moves when the dropped entry is in front of it
+				// (it is not, while the inflight entries await redelivery after Init)
+				if dropIdx < q.current {
+					q.current--
+				}
 			}
 			if dropBytes == nil {
 				q.notifier.NotifyDropped(elem, dropErr)
@@ -195,16 +200,21 @@ func (q *Queue) Add(elem *queue.Elem) (err error) {
 			if err != nil {
 				return
 			}
-			// inflight message
-			if i < q.current && queue.ElemExpiry(now, e) {
-				dropBytes = b
-				dropElem = e
-				dropErr = queue.ErrDropExpiredInflight
-				return
+			// inflight message: it has a packet id (this also holds for the entries that await
+			// redelivery after Init, which are not in front of the read cursor, and for PUBREL entries)
+			if e.ID() != 0 {
+				if queue.ElemExpiry(now, e) {
+					dropBytes = b
+					dropElem = e
+					dropIdx = i
+					dropErr = queue.ErrDropExpiredInflight
+					return
+				}
+				continue
 			}
 			// non-inflight message
-			if i >= q.current {
-				if i == q.current {
+			{
+				if frontElem == nil {
 					frontBytes = b
 					frontElem = e
 				}
